@@ -32,7 +32,7 @@ PROPS = {
     'C05': {
         'units': [('contracts/S_raw.vc', None, 'S_raw'), ('contracts/S_parse.vc', None, 'S_parse')],
         'replay': 'c05',
-        'replay_scope': 'every pair (first update, optional reset_tags, second update) over 3 formats x 40 small inputs (escapes, NUL, delimiters, multi-byte); compared with the fresh constructor; writers/iterators/accessors exercised; since round 11: 13 more inputs (ASCII around the letter ranges, class-edge characters, trailing CR) and the character types of every parsed sentence compared with the reference classification',
+        'replay_scope': 'every pair (first update, optional reset_tags, second update) over 3 formats x 40 small inputs (escapes, NUL, delimiters, multi-byte); compared with the fresh constructor; writers/iterators/accessors exercised; since round 11: 13 more inputs (ASCII around the letter ranges, class-edge characters, trailing CR) and the character types of every parsed sentence compared with the library classification (CharacterType::get_type) of its characters',
         'not_covered': [
             'that the parsed raw text / labels / tags equal the annotated input (content equality) is C03/C04 and is not claimed; proved here: totality, termination, and that every output is consistent with the parsed text (types, position maps, lengths, tag-slot count)',
             '"every accessor, writer and iterator works": accessors and the token iterator are proved here / in S_tok, the two writers in units W_writer (C02/C03) and W_pawriter (C04)',
